@@ -44,7 +44,7 @@ Definition prio_eqb (p q : prio) : bool :=
    opens the block (HPACK abstraction: DESIGN C08). *)
 Inductive frame :=
 | FData (s : N) (es : bool) (d : bytes) (pad : option N)
-| FHeaders (s : N) (es eh : bool) (pr : option prio) (fid : N)
+| FHeaders (s : N) (es eh : bool) (pr : option prio) (fid : N) (e0 : bool)   (* e0: this frame's fragment is empty *)
 | FCont (s : N) (eh : bool)
 | FPriority (s : N) (p : prio)
 | FRst (s : N) (code : N)
@@ -116,12 +116,15 @@ Definition unq (w : wire) : option qframe :=
 
 (* ------------------------------------------------------------------ front *)
 
+(* headerContinuation (repaired: carries es).  pushPromiseContinuation is never
+   completed: the source http2.Framer only records an open header block for
+   HEADERS (checkFrameOrder), so the CONTINUATION that follows a PUSH_PROMISE
+   without END_HEADERS is a connection error and the reader stops. *)
 Inductive pend :=
-| PH (s : N) (es : bool) (pr : prio) (fid : N)     (* headerContinuation (repaired: carries es) *)
-| PP (s : N) (promised : N) (fid : N).             (* pushPromiseContinuation *)
-Definition pend_sid (p : pend) : N := match p with PH s _ _ _ | PP s _ _ => s end.
+| PH (s : N) (es : bool) (pr : prio) (fid : N).
+Definition pend_sid (p : pend) : N := match p with PH s _ _ _ => s end.
 Definition pend_q (p : pend) : qframe :=
-  match p with PH s es pr fid => QHeaders s es pr fid | PP s pm fid => QPush s pm fid end.
+  match p with PH s es pr fid => QHeaders s es pr fid end.
 
 (* f_cont X: pending header block in the frames sent by X.
    f_maxf X: max frame size for frames sent TO X (X's SETTINGS). *)
@@ -155,7 +158,8 @@ Fixpoint split_data (fuel : nat) (maxf : N) (s : N) (es : bool) (d : bytes) : op
   match fuel with
   | O => None
   | S k =>
-      let n := Nat.min (length d) (N.to_nat maxf) in
+      (* min (len d) maxf, without building a large unary number when the data is short *)
+      let n := if N.leb (N.of_nat (length d)) maxf then length d else N.to_nat maxf in
       let rest := skipn n d in
       match rest with
       | [] => Some [QData s es (firstn n d)]
@@ -183,7 +187,9 @@ Definition frame_ok (c : option pend) (fr : frame) : bool :=
   | None =>
       match fr with
       | FCont _ _ => false
-      | FData s _ _ _ | FHeaders s _ _ _ _ | FPriority s _ | FRst s _ | FPush s _ _ _ => negb (N.eqb s 0)
+      (* parseHeadersFrame of the pinned x/net rejects an empty fragment: len(p)-padLength <= 0 *)
+      | FHeaders s _ _ _ _ e0 => negb (N.eqb s 0) && negb e0
+      | FData s _ _ _ | FPriority s _ | FRst s _ | FPush s _ _ _ => negb (N.eqb s 0)
       | FWinUpd _ inc => negb (N.eqb inc 0)
       | FSettings kv => forallb (fun p => negb (N.eqb (fst p) 4) || N.leb (snd p) 2147483647) kv
       | _ => true
@@ -204,12 +210,12 @@ Definition front (f : fstate) (y : side) (fr : frame) : option (fstate * list ac
           let n := fcl d pad in
           Some (f, (if N.eqb n 0 then [] else [ACredit y 0 n; ACredit y s n]) ++ map (AEnq z) qs)
       end
-  | FHeaders s es eh pr fid =>
+  | FHeaders s es eh pr fid _ =>
       if eh then Some (f, [AEnq z (QHeaders s es (opt_prio pr) fid)])
       else Some (set_cont f y (Some (PH s es (opt_prio pr) fid)), [])
   | FPush s eh pm fid =>
-      if eh then Some (f, [AEnq z (QPush s pm fid)])
-      else Some (set_cont f y (Some (PP s pm fid)), [])
+      (* !eh: fragment buffered, continuationState set; the Framer does not expect a CONTINUATION *)
+      if eh then Some (f, [AEnq z (QPush s pm fid)]) else Some (f, [])
   | FCont s eh =>
       match f_cont f y with
       | Some p => if eh then Some (set_cont f y None, [AEnq z (pend_q p)]) else Some (f, [])
